@@ -210,6 +210,11 @@ impl TypeRt<'_> {
                     let x = self.pop()?;
                     self.stack.push(x);
                 }
+                // Reordering the rows keeps the type and the shape
+                Reverse | Sort => {
+                    let x = self.pop()?;
+                    self.stack.push(x);
+                }
                 Add | Sub | Mul | Div | Pow | Modulo => {
                     let a = self.pop()?;
                     let b = self.pop()?;
@@ -355,6 +360,16 @@ impl TypeRt<'_> {
                 _ => return Err(TypeError::NotSupported),
             },
             Node::ImplPrim(prim, _) => match prim {
+                // The fused forms of reverse and sort, see the primitives
+                ImplPrimitive::SortDown => {
+                    let x = self.pop()?;
+                    self.stack.push(x);
+                }
+                ImplPrimitive::FirstSort | ImplPrimitive::LastSort => {
+                    let mut x = self.pop()?;
+                    x.shape.make_row();
+                    self.stack.push(x);
+                }
                 ImplPrimitive::UnBox => {
                     let x = self.pop()?;
                     self.stack.push(x.unboxed());
@@ -426,6 +441,22 @@ impl TypeRt<'_> {
                 Pool | Spawn => {
                     let [f] = get_args(args)?;
                     return self.node(&f.node);
+                }
+                By => {
+                    // The last argument is kept below the outputs
+                    let [f] = get_args(args)?;
+                    if f.sig.args() == 0 {
+                        return Err(TypeError::NotSupported);
+                    }
+                    let below = (self.stack.len())
+                        .checked_sub(f.sig.args())
+                        .ok_or(TypeError::StackUnderflow)?;
+                    let kept = self.stack[below].clone();
+                    self.node(&f.node)?;
+                    if self.stack.len() < below {
+                        return Err(TypeError::StackUnderflow);
+                    }
+                    self.stack.insert(below, kept);
                 }
                 Reduce => {
                     let [f] = get_args(args)?;
